@@ -330,6 +330,41 @@ def run_history(case, st):
                 continue
             if cmp_od(od2, back, doc, st, rc, "second-export"):
                 st.outcome("history ok")
+            # the SAME dictionary exported, edited by the application (defaults, parameter values, a limit, a name), exported
+            # again: the second document describes the dictionary as it is now, and exporting did not change it
+            from canopen.objectdictionary import ODVariable
+            st.evaluations += 1
+            st.nontrivial_n += 1
+
+            def flat(od_):
+                for o in od_.values():
+                    if isinstance(o, ODVariable):
+                        yield o
+                    else:
+                        for m in o.values():
+                            yield m
+            before = [(v.index, v.subindex, v.default, v.value, v.min, v.max, v.name) for v in flat(od2)]
+            try:
+                roundtrip(od2, doc)
+                after = [(v.index, v.subindex, v.default, v.value, v.min, v.max, v.name) for v in flat(od2)]
+                if after != before:
+                    st.violation(f"C14:{doc}:export-changed-the-dictionary", rc, "dictionary untouched by export_od",
+                                 [(a, b) for a, b in zip(before, after) if a != b][:2])
+                    continue
+                n_ = 0
+                for v in flat(od2):
+                    r = type_range(v.data_type)
+                    if r and v.subindex != 0 and v.default is not None:
+                        n_ += 1
+                        v.default = r[0] + n_ if v.default != r[0] + n_ else r[0] + n_ + 1
+                        if doc == "dcf":
+                            v.value = r[1] - n_
+                back2, _ = roundtrip(od2, doc)
+            except Exception as e:  # noqa: BLE001
+                st.violation(f"C14:{doc}:raises:{type(e).__name__}:edited-between-exports", rc, "exported", repr(e)[:150])
+                continue
+            if cmp_od(od2, back2, doc, st, rc, "edited-between-exports"):
+                st.outcome("history ok")
 
 
 def run_imported_text(case, st):
